@@ -10,3 +10,4 @@ CONSTANTS
   MaxProbes = 1
   DotNameHandled = FALSE
   RpcPosCheckedFirst = FALSE
+  Utf8LabelsHandled = FALSE
